@@ -119,3 +119,18 @@ Proof.
             gr_init := [(B "atele", 100%Z)]; gr_from_bal := [(B "atele", 99%Z)] |}.
   split; reflexivity.
 Qed.
+
+(** The state invariant [aenv_wf] of validated_never_panics_aggregate_proposal is necessary: in a module state
+    with a stored token pair WITHOUT denominations (which no validated genesis and no handler produces -
+    validated_aggregate_genesis_establishes_invariant, validated_aggregate_history_never_halts) a validated
+    ToggleTokenRelay proposal panics in TokenPair.GetID (Denoms[0]). *)
+Definition w_aenv : aenv :=
+  {| e_enabled := true; e_evm_denom := B "atele"; e_denom_registered := fun _ => false; e_erc20_registered := fun _ => false;
+     e_has_supply := fun _ => true; e_bank_meta := fun _ => None; e_meta_equal := true;
+     e_pair_id := fun _ => Some (B "id"); e_pair := fun _ => Some {| p_erc20 := B "0x5dCA2483280D9727c80b5518faC4556617fb194F"; p_denoms := [] |};
+     e_id_same := true; e_abi_pack_ok := true; e_evm_ok := true; e_query_erc20 := fun _ => None; e_created_meta_ok := true;
+     e_update_matches := true |}.
+
+Theorem C15_aggregate_invariant_needed :
+  exists e p, aprop_validate p = Ok tt /\ handle_aprop e p = Panic.
+Proof. exists w_aenv, (AToggle (B "t") 1 (B "ucoin")). split; reflexivity. Qed.
